@@ -40,7 +40,7 @@ var c20Derived = map[string]bool{c20Medians: true, c20Strat: true}
 
 func init() {
 	register("C20", "other", "T7 Pairing (dirty flag), T4 GuardedBy, T6 WhoMayWrite, T2 Dominates (loop exit), AST provenance of index roles, T15 ConstRelation (go/constant), normalised comparators, polynomial normal form for Matrix.Row",
-		"Decides the shape the indexer's medians and metrics depend on. Dirty flag: every store into a source field of QuorumIndexer (globalMatrix, selfParentSeqs, validators, dagi, diffMetricFn; directly, through Matrix.Row, through a local alias or copy()) is followed by dirty = true on every path to return; the derived fields globalMedianSeqs and searchStrategy are written only by recacheState; every read of them elsewhere is reached only after recacheState ran or over the dirty == false edge, also after any dirtying statement of the same function; dirty is cleared only in recacheState, as its last effect, after the complete loop that stores a median for every validator index 0..validators.Len()-1 and after searchStrategy was replaced by a MetricStrategy over a fresh MetricFnCache of the indexer's own GetMetricOf; the constructor starts dirty. Index roles: ProcessEvent writes globalMatrix.Row(x)[y] = seqOf(vecClock.Get(x)) for every validator index x (full counted loop), with vecClock = dagi.GetMergedHighestBefore(event.ID()) and y = validators.GetIdx(event.Creator()), and selfParentSeqs[x] gets the same value only under the selfEvent parameter; Matrix.Row(i) is buffer[i*columns:(i+1)*columns] (polynomial identity) and NewMatrix sizes the buffer rows*cols; recacheState pairs Row(subject)[i] with GetWeightByIdx(i) for the same observer i over all observers, sorts by seq strictly descending, takes wmedian.Of(pairs, validators.Quorum()) of the freshly filled and sorted slice and stores its seq at globalMedianSeqs[subject]; wmedian.Of accumulates value.Weight() from zero in slice order and returns the current value exactly on the first accumulated weight >= stop, nothing else returns; weightedSeq.Weight returns its weight field. seqOf returns Seq() unless IsForkDetected(), then the constant MaxUint32/2-1 = 2^31-2, and go/constant confirms sentinel >= K-1 where K is the constant of basiccheck's `Seq >= K` rejection (K = MaxInt32-1, so admissible Seq <= 2^31-3 < sentinel). GetMetricOf sums (from zero, += over the full validator loop) diffMetricFn called with, under the parameter names of DiffMetricFn, median = globalMedianSeqs[i], current = selfParentSeqs[i], update = seqOf(dagi.GetMergedHighestBefore(id).Get(i)), validatorIdx = i. NOT decided: numeric equality of the stored median with the definition over all inputs (it follows from the decided shape by the descending-prefix argument, which is not machine-checked), overflow of the Metric sum, staleness of a SearchStrategy value kept by a caller across ProcessEvent, mutation of the slices handed out by GetGlobalMatrix/GetSelfParentSeqs/GetGlobalMedianSeqs by callers, and that vecClock sequences of processed events respect the basiccheck bound (assumed).",
+		"Decides the shape the indexer's medians and metrics depend on. Dirty flag: every store into a source field of QuorumIndexer (globalMatrix, selfParentSeqs, validators, dagi, diffMetricFn; directly, through Matrix.Row, through a local alias or copy()) is followed by dirty = true on every path to return; the derived fields globalMedianSeqs and searchStrategy are written only by recacheState; every read of them elsewhere is reached only after recacheState ran or over the dirty == false edge, also after any dirtying statement of the same function; dirty is cleared only in recacheState, as its last effect, after the complete loop that stores a median for every validator index 0..validators.Len()-1 and after searchStrategy was replaced by a MetricStrategy over a fresh MetricFnCache of the indexer's own GetMetricOf; the constructor starts dirty. Index roles: ProcessEvent writes globalMatrix.Row(x)[y] = seqOf(vecClock.Get(x)) for every validator index x (full counted loop), with vecClock = dagi.GetMergedHighestBefore(event.ID()) and y = validators.GetIdx(event.Creator()), and selfParentSeqs[x] gets the same value only under the selfEvent parameter; Matrix.Row(i) is buffer[i*columns:(i+1)*columns] (polynomial identity) and NewMatrix sizes the buffer rows*cols; recacheState pairs Row(subject)[i] with GetWeightByIdx(i) for the same observer i over all observers, sorts by seq strictly descending, takes wmedian.Of(pairs, validators.Quorum()) of the freshly filled and sorted slice and stores its seq at globalMedianSeqs[subject]; wmedian.Of visits its values in slice order from the first (range, or for i := 0; i < len(values); i++), accumulates the current element's Weight() from zero and returns the current element exactly on the first accumulated weight >= stop, nothing else returns; the per-subject median computation, the store of the median, the strategy replacement and dirty = true may each live in a private helper method called on the same receiver (the helper's parameter is bound to the caller's loop index; a helper counts as the store/assignment it performs on every path, and derived state may be written by a helper only if all its call sites are in recacheState); weightedSeq.Weight returns its weight field. seqOf returns Seq() unless IsForkDetected(), then the constant MaxUint32/2-1 = 2^31-2, and go/constant confirms sentinel >= K-1 where K is the constant of basiccheck's `Seq >= K` rejection (K = MaxInt32-1, so admissible Seq <= 2^31-3 < sentinel). GetMetricOf sums (from zero, += over the full validator loop) diffMetricFn called with, under the parameter names of DiffMetricFn, median = globalMedianSeqs[i], current = selfParentSeqs[i], update = seqOf(dagi.GetMergedHighestBefore(id).Get(i)), validatorIdx = i. NOT decided: numeric equality of the stored median with the definition over all inputs (it follows from the decided shape by the descending-prefix argument, which is not machine-checked), overflow of the Metric sum, staleness of a SearchStrategy value kept by a caller across ProcessEvent, mutation of the slices handed out by GetGlobalMatrix/GetSelfParentSeqs/GetGlobalMedianSeqs by callers, and that vecClock sequences of processed events respect the basiccheck bound (assumed).",
 		[]string{"only events accepted by eventcheck/basiccheck reach ProcessEvent (C13 bound on Seq)", "sort.Slice sorts by the given less function; pos.Validators.Quorum/GetIdx/GetWeightByIdx/Len are as documented (C11/C12)",
 			"callers do not write through the slices returned by the indexer's getters", "the indexer is used from one goroutine"},
 		runC20)
@@ -441,6 +441,7 @@ func c20DirtyClause(c *core.Ctx) {
 		}
 	}
 	nStores := 0
+	helpers := c20RecacheHelpers(c.P)
 	for _, f := range c20PkgFuncs(c.P) {
 		who := short(f.Name)
 		for _, a := range assignsToField(f, c20Dirty) {
@@ -451,10 +452,11 @@ func c20DirtyClause(c *core.Ctx) {
 		if len(c20DirtyAssigns(f, false)) > 0 && f.Name != c20Recache {
 			c.Fail(who+"|clears dirty", "T6 WhoMayWrite", f.Pos(), "the dirty flag is cleared outside recacheState: stale medians/metrics can be served as current")
 		}
-		set := c20DirtyAssigns(f, true)
+		set := c20DirtySetSites(f) // dirty = true, directly or in a helper that always sets it
+		isSet := core.PointSet(set...)
 		clear := c20DirtyAssigns(f, false)
 		for _, cs := range f.Calls() {
-			if strings.HasPrefix(cs.Name, c20QiT+".") { // any method of the indexer may recache (conservative)
+			if strings.HasPrefix(cs.Name, c20QiT+".") && !isSet(cs.Pt) { // any other method of the indexer may recache (conservative)
 				clear = append(clear, cs.Pt)
 			}
 		}
@@ -463,7 +465,7 @@ func c20DirtyClause(c *core.Ctx) {
 			case s.Field == c20Dirty:
 				continue
 			case c20Derived[s.Field]:
-				c.Check(f.Name == c20Recache, who+"|writes "+short(s.Field), "T6 WhoMayWrite", s.Pos, "derived state is written by recacheState", "derived state "+short(s.Field)+" is written outside recacheState: it no longer equals the function of the matrix that readers expect")
+				c.Check(f.Name == c20Recache || helpers[f], who+"|writes "+short(s.Field), "T6 WhoMayWrite", s.Pos, "derived state is written by recacheState (or by a private helper that only recacheState calls)", "derived state "+short(s.Field)+" is written outside recacheState: it no longer equals the function of the matrix that readers expect")
 				continue
 			}
 			nStores++
@@ -517,9 +519,10 @@ func c20DirtyClause(c *core.Ctx) {
 
 func c20Reads(c *core.Ctx) {
 	n := 0
+	helpers := c20RecacheHelpers(c.P)
 	for _, f := range c20PkgFuncs(c.P) {
-		if f.Name == c20Recache {
-			continue
+		if f.Name == c20Recache || helpers[f] {
+			continue // recacheState and its private helpers work on the state being rebuilt
 		}
 		who := short(f.Name)
 		var reads []*ast.SelectorExpr
@@ -535,7 +538,7 @@ func c20Reads(c *core.Ctx) {
 		recache := core.PointSet(core.Points(f.CallsTo(c20Recache))...)
 		clean := c19Edges(f, c20BoolFact(f, c20Dirty, false))
 		var dirtying []core.Point
-		dirtying = append(dirtying, c20DirtyAssigns(f, true)...)
+		dirtying = append(dirtying, c20DirtySetSites(f)...)
 		for _, s := range c20Stores(f) {
 			if s.Field != c20Dirty && !c20Derived[s.Field] {
 				dirtying = append(dirtying, s.Pt)
@@ -593,6 +596,16 @@ func c20RecacheClause(c *core.Ctx) {
 		ok, wit := f.MustPassBefore(clear, rp)
 		c.Check(ok, "recacheState clears dirty on every return", "T2 Dominates", posOf(rp), "dirty = false dominates the return", "recacheState can return with dirty still set (recomputed on every read) or: "+f.DescribePath(wit))
 	}
+	// a statement of recacheState may live in a helper called on the same receiver: the call site then
+	// stands for the helper's stores (may, for "cleared last"; must, for "recomputed before return")
+	mayDerive := c20HelperSites(f, func(g *core.FuncInfo, _ *core.CallSite) bool {
+		for _, s := range c20Stores(g) {
+			if c20Derived[s.Field] {
+				return true
+			}
+		}
+		return false
+	})
 	last := true
 	for _, cl := range clear {
 		for _, s := range derivedStores {
@@ -600,55 +613,96 @@ func c20RecacheClause(c *core.Ctx) {
 				last = false
 			}
 		}
-		for _, cs := range f.Calls() {
-			if cs.Name == "utils/wmedian.Of" && f.CanReach(cl, cs.Pt) {
+		for _, cs := range mayDerive {
+			if f.CanReach(cl, cs.Pt) {
+				last = false
+			}
+		}
+		for _, pt := range f.SitesMay(func(cs *core.CallSite) bool { return cs.Name == "utils/wmedian.Of" }, 2) {
+			if f.CanReach(cl, pt) {
 				last = false
 			}
 		}
 	}
 	c.Check(last, "dirty cleared last", "T3 PostDominates", f.Pos(), "no derived store and no median computation is reachable after dirty = false", "dirty is cleared before the derived state is complete: a panic in the median computation (wmedian.Of) or a re-entrant read leaves half-updated caches marked clean")
 	// median loop: full loop over validators storing globalMedianSeqs[i] each iteration
-	var medLoop *ast.ForStmt
-	var medStore *c20Store
-	for i := range derivedStores {
-		if derivedStores[i].Field == c20Medians {
-			c.Need(medStore == nil, "one store into globalMedianSeqs")
-			medStore = &derivedStores[i]
+	// The store is `globalMedianSeqs[x] = …` in recacheState, or a call h.helper(.., x, ..) of a helper that stores
+	// globalMedianSeqs[p] for its parameter p on every path: the call then is the store for index x.
+	var medPt core.Point
+	var medPos token.Pos
+	var medIdx ast.Expr
+	nMed, nOther := 0, 0
+	for _, s := range derivedStores {
+		if s.Field != c20Medians {
+			continue
+		}
+		indexed := false
+		for _, a := range assignments(f) {
+			if ix, ok := ast.Unparen(a.LHS).(*ast.IndexExpr); ok && a.Pt == s.Pt && a.Stmt.Pos() == s.Pos && fieldNameOf(f, ix.X) == c20Medians {
+				indexed = true
+				medPt, medPos, medIdx = a.Pt, a.Stmt.Pos(), ix.Index
+			}
+		}
+		if indexed {
+			nMed++
+		} else {
+			nOther++
 		}
 	}
-	c.Need(medStore != nil, "recacheState stores into globalMedianSeqs")
-	medLoop, _ = enclosingLoop(f, medStore.Pos).(*ast.ForStmt)
+	for _, cs := range c20HelperSites(f, func(g *core.FuncInfo, _ *core.CallSite) bool { _, ok := c20HelperStoresMedian(g); return ok }) {
+		k, _ := c20HelperStoresMedian(c20Callee(f, cs))
+		c.Need(k < len(cs.Call.Args), "helper call passes the validator index")
+		nMed++
+		medPt, medPos, medIdx = cs.Pt, cs.Pos(), cs.Call.Args[k]
+	}
+	c.Need(nMed == 1 && nOther == 0, "recacheState stores into globalMedianSeqs[i] at one place (itself, or a helper that always stores the median of its parameter)")
+	medLoop, _ := enclosingLoop(f, medPos).(*ast.ForStmt)
 	c.Need(medLoop != nil, "the median store is inside a for loop")
 	ctr, full := c20FullLoop(f, medLoop, func(e ast.Expr) bool { return c20IsValLen(f, e) })
 	c.Check(full, "median loop covers every validator", "T2 (loop) + normalised bound", medLoop.Pos(), "for i := 0; i < validators.Len(); i++ without break", "the median loop does not run over all validator indexes 0..Len()-1: some medians stay stale")
-	var stAssign *assignment
-	for _, a := range assignments(f) {
-		if a.Pt == medStore.Pt && fieldNameOf(f, ast.Unparen(a.LHS).(*ast.IndexExpr).X) == c20Medians {
-			a := a
-			stAssign = &a
-		}
-	}
-	c.Need(stAssign != nil, "globalMedianSeqs[i] = … assignment")
-	okIdx := ctr != nil && c20VarAt(f, ast.Unparen(stAssign.LHS).(*ast.IndexExpr).Index) == ctr
-	c.Check(okIdx && c20EveryIteration(f, medLoop, medStore.Pt), "a median is stored for the loop's validator in every iteration", "T7 Pairing", medStore.Pos, "globalMedianSeqs[i] is assigned on every path through the body", "an iteration can leave globalMedianSeqs[i] unassigned, or the store uses another index")
+	okIdx := ctr != nil && c20VarAt(f, medIdx) == ctr
+	c.Check(okIdx && c20EveryIteration(f, medLoop, medPt), "a median is stored for the loop's validator in every iteration", "T7 Pairing", medPos, "globalMedianSeqs[i] is assigned on every path through the body", "an iteration can leave globalMedianSeqs[i] unassigned, or the store uses another index")
 	done, _ := loopDone(f, medLoop)
 	// searchStrategy replaced by a fresh cache over the indexer's own GetMetricOf
-	var stratPts []core.Point
-	for _, a := range assignsToField(f, c20Strat) {
-		ok := false
-		if ns := isCallTo(f, c19Resolve(f, a.RHS, a.Pt), c19AncPkg+".NewMetricStrategy"); ns != nil && len(ns.Args) == 1 {
-			if mv, isSel := ast.Unparen(ns.Args[0]).(*ast.SelectorExpr); isSel && f.P.ObjName(f.ObjOf(mv)) == c19AncPkg+".MetricCache.GetMetricOf" {
-				if nc := isCallTo(f, c19Resolve(f, mv.X, a.Pt), c19AncPkg+".NewMetricFnCache"); nc != nil && len(nc.Args) == 2 {
-					if src, isSel := ast.Unparen(nc.Args[0]).(*ast.SelectorExpr); isSel && f.P.ObjName(f.ObjOf(src)) == c20QiT+".GetMetricOf" && varOf(f, src.X) == f.Recv() {
-						ok = true
+	fresh := func(g *core.FuncInfo, a assignment) bool {
+		if ns := isCallTo(g, c19Resolve(g, a.RHS, a.Pt), c19AncPkg+".NewMetricStrategy"); ns != nil && len(ns.Args) == 1 {
+			if mv, isSel := ast.Unparen(ns.Args[0]).(*ast.SelectorExpr); isSel && g.P.ObjName(g.ObjOf(mv)) == c19AncPkg+".MetricCache.GetMetricOf" {
+				if nc := isCallTo(g, c19Resolve(g, mv.X, a.Pt), c19AncPkg+".NewMetricFnCache"); nc != nil && len(nc.Args) == 2 {
+					if src, isSel := ast.Unparen(nc.Args[0]).(*ast.SelectorExpr); isSel && g.P.ObjName(g.ObjOf(src)) == c20QiT+".GetMetricOf" && varOf(g, src.X) != nil && varOf(g, src.X) == g.Recv() {
+						return true
 					}
 				}
 			}
 		}
-		c.Check(ok, "searchStrategy = MetricStrategy over a fresh cache of GetMetricOf", "provenance", a.Stmt.Pos(), "the metric cache is replaced, not reused", "the search strategy is not rebuilt over a fresh MetricFnCache of this indexer's GetMetricOf: metrics cached before the matrix changed are served")
-		if ok {
-			stratPts = append(stratPts, a.Pt)
+		return false
+	}
+	var stratPts []core.Point
+	checkStrat := func(g *core.FuncInfo) (pts []core.Point, all bool) {
+		all = true
+		for _, a := range assignsToField(g, c20Strat) {
+			ok := a.RHS != nil && fresh(g, a)
+			c.Check(ok, "searchStrategy = MetricStrategy over a fresh cache of GetMetricOf", "provenance", a.Stmt.Pos(), "the metric cache is replaced, not reused", "the search strategy is not rebuilt over a fresh MetricFnCache of this indexer's GetMetricOf: metrics cached before the matrix changed are served")
+			if ok {
+				pts = append(pts, a.Pt)
+			} else {
+				all = false
+			}
 		}
+		return
+	}
+	stratPts, _ = checkStrat(f)
+	stratHelper := map[*core.FuncInfo]bool{}
+	recHelpers := c20RecacheHelpers(c.P)
+	for _, g := range c20PkgFuncs(c.P) {
+		if !recHelpers[g] {
+			continue
+		}
+		if pts, all := checkStrat(g); all && c20AlwaysPasses(g, pts) {
+			stratHelper[g] = true
+		}
+	}
+	for _, cs := range c20HelperSites(f, func(g *core.FuncInfo, _ *core.CallSite) bool { return stratHelper[g] }) {
+		stratPts = append(stratPts, cs.Pt)
 	}
 	for _, rp := range rets {
 		ok1, _ := f.MustPassBefore(stratPts, rp)
@@ -871,15 +925,49 @@ func c20IsNamed(p *core.Prog, t types.Type, name string) bool {
 }
 
 func c20Median(c *core.Ctx) {
-	f := c.Fn(c20Recache)
-	ofs := f.CallsTo("utils/wmedian.Of")
+	rf := c.Fn(c20Recache)
+	// The median of one subject validator is computed in the body of recacheState's loop over validators, or in
+	// a helper method that loop calls once per subject (h.medianOf(subject)). f is the function that holds the
+	// wmedian.Of call, subj the variable denoting the subject there (loop counter, or the helper's parameter
+	// bound to the loop counter), region the statements executed once per subject.
+	f := rf
+	var via *core.CallSite // the call in recacheState that enters the helper (nil: computed in recacheState itself)
+	ofs := rf.CallsTo("utils/wmedian.Of")
+	if len(ofs) == 0 {
+		cands := c20HelperSites(rf, func(g *core.FuncInfo, _ *core.CallSite) bool { return len(g.CallsTo("utils/wmedian.Of")) > 0 })
+		c.Need(len(cands) == 1, "one wmedian.Of(values, stop) call in recacheState (or in one helper it calls on its receiver)")
+		via = cands[0]
+		f = c20Callee(rf, via)
+		ofs = f.CallsTo("utils/wmedian.Of")
+	}
 	c.Need(len(ofs) == 1 && len(ofs[0].Call.Args) == 2, "one wmedian.Of(values, stop) call in recacheState")
 	of := ofs[0]
 	pairs := varOf(f, of.Call.Args[0])
 	c.Need(pairs != nil, "wmedian.Of is applied to a local slice")
-	outer, _ := enclosingLoop(f, of.Pos()).(*ast.ForStmt)
-	subj, full := c20FullLoop(f, outer, func(e ast.Expr) bool { return c20IsValLen(f, e) })
-	c.Need(full && subj != nil, "wmedian.Of is called inside the full loop over validators")
+	var subj, rctr *types.Var
+	var region ast.Node
+	if via == nil {
+		outer, _ := enclosingLoop(f, of.Pos()).(*ast.ForStmt)
+		ctr, full := c20FullLoop(f, outer, func(e ast.Expr) bool { return c20IsValLen(f, e) })
+		c.Need(full && ctr != nil, "wmedian.Of is called inside the full loop over validators")
+		subj, rctr, region = ctr, ctr, outer.Body
+	} else {
+		outer, _ := enclosingLoop(rf, via.Pos()).(*ast.ForStmt)
+		ctr, full := c20FullLoop(rf, outer, func(e ast.Expr) bool { return c20IsValLen(rf, e) })
+		c.Need(full && ctr != nil, "the median helper is called inside the full loop over validators")
+		k := -1
+		for i, a := range via.Call.Args {
+			if c20VarAt(rf, a) == ctr {
+				c.Need(k < 0, "the median helper receives the loop's validator index once")
+				k = i
+			}
+		}
+		c.Need(k >= 0, "the median helper receives the loop's validator index")
+		subj = f.Param(k)
+		c.Need(subj != nil && c20ParamIndex(f, subj) == k, "the median helper does not modify its subject parameter")
+		c.Need(!f.CanReach(of.Pt, of.Pt), "the median helper computes one median per call")
+		rctr, region = ctr, f.Body
+	}
 	// stop = validators.Quorum()
 	okStop := false
 	if q := isCallTo(f, c19Resolve(f, of.Call.Args[1], of.Pt), "inter/pos.Validators.Quorum"); q != nil {
@@ -889,33 +977,72 @@ func c20Median(c *core.Ctx) {
 	}
 	c.Check(okStop, "median threshold is validators.Quorum()", "provenance", of.Pos(), "stop = h.validators.Quorum()", "the weighted median stops at something other than the quorum weight of the indexer's validators")
 	// the result's seq is stored at globalMedianSeqs[subject]
-	okStore := false
-	for _, a := range assignments(f) {
-		ix, ok := ast.Unparen(a.LHS).(*ast.IndexExpr)
-		if !ok || fieldNameOf(f, ix.X) != c20Medians {
-			continue
+	// seqOfOf: e (in g == f) resolves to wmedian.Of(..).(weightedSeq).seq of the one Of call
+	seqOfOf := func(e ast.Expr, use core.Point) bool {
+		if e == nil {
+			return false
 		}
-		if sel, ok := c19Resolve(f, a.RHS, a.Pt).(*ast.SelectorExpr); ok && fieldNameOf(f, sel) == c20WSeq+".seq" {
-			if ta, ok := ast.Unparen(sel.X).(*ast.TypeAssertExpr); ok {
-				if call, ok := c19Resolve(f, ta.X, a.Pt).(*ast.CallExpr); ok && call == of.Call && c20VarAt(f, ix.Index) == subj {
-					okStore = true
-				}
+		sel, ok := c19Resolve(f, e, use).(*ast.SelectorExpr)
+		if !ok || fieldNameOf(f, sel) != c20WSeq+".seq" {
+			return false
+		}
+		ta, ok := c19Resolve(f, sel.X, use).(*ast.TypeAssertExpr)
+		if !ok {
+			return false
+		}
+		call, ok := c19Resolve(f, ta.X, use).(*ast.CallExpr)
+		return ok && call == of.Call
+	}
+	// a helper hands the median back: every return of the helper is the seq of the Of result
+	helperReturnsSeq := via != nil && len(f.ReturnPoints()) > 0
+	if via != nil {
+		for _, rp := range f.ReturnPoints() {
+			r := rp.Node().(*ast.ReturnStmt)
+			if len(r.Results) != 1 || !seqOfOf(r.Results[0], rp) {
+				helperReturnsSeq = false
 			}
 		}
-		c.Check(okStore, "stored median is the seq of wmedian.Of's result for this subject", "provenance", a.Stmt.Pos(), "globalMedianSeqs[subject] = wmedian.Of(pairs, quorum).(weightedSeq).seq in the same iteration", "the value stored as the median is not the result of this iteration's wmedian.Of, or goes to another validator's slot")
 	}
+	nStore := 0
+	stores := func(g *core.FuncInfo) {
+		for _, a := range assignments(g) {
+			ix, ok := ast.Unparen(a.LHS).(*ast.IndexExpr)
+			if !ok || fieldNameOf(g, ix.X) != c20Medians {
+				continue
+			}
+			nStore++
+			okStore := false
+			switch {
+			case g == f:
+				// globalMedianSeqs[subject] = Of(..).(weightedSeq).seq, where the median is computed
+				okStore = seqOfOf(a.RHS, a.Pt) && c20VarAt(g, ix.Index) == subj
+			default:
+				// recacheState stores what the helper returned for the loop's validator
+				call, isCall := c19Resolve(g, a.RHS, a.Pt).(*ast.CallExpr)
+				okStore = a.RHS != nil && isCall && call == via.Call && helperReturnsSeq && c20VarAt(g, ix.Index) == rctr
+			}
+			c.Check(okStore, "stored median is the seq of wmedian.Of's result for this subject", "provenance", a.Stmt.Pos(), "globalMedianSeqs[subject] = wmedian.Of(pairs, quorum).(weightedSeq).seq in the same iteration", "the value stored as the median is not the result of this iteration's wmedian.Of, or goes to another validator's slot")
+		}
+	}
+	stores(f)
+	if rf != f {
+		stores(rf)
+	}
+	c.ExpectAtLeast("stores of the median into globalMedianSeqs", nStore, 1)
 	// pairs: fresh per subject, one slot per validator
 	pDef, single := c19SingleDef(f, pairs)
 	okFresh := false
 	if single {
 		if mk := isCallTo(f, pDef.RHS, "builtin.make"); mk != nil && len(mk.Args) >= 2 && c20IsValLen(f, mk.Args[1]) && (len(mk.Args) == 2) {
 			okFresh, _ = precedesLocally(f, []core.Point{pDef.Pt}, of.Pt)
-			okFresh = okFresh && c19Within(outer.Body, pDef.Stmt.Pos())
+			okFresh = okFresh && c19Within(region, pDef.Stmt.Pos())
 		}
 	}
 	c.Check(okFresh, "observer list is rebuilt per subject with one slot per validator", "provenance", of.Pos(), "pairs := make(.., validators.Len()) inside the subject loop", "the list the median is taken from is not a fresh slice of validators.Len() entries per subject: observations of another subject (or missing observers) enter the median")
 	// fill loop
-	var fill *ast.RangeStmt
+	// one store pairs[i] = … inside a loop of its own that visits every slot: a range over pairs,
+	// `for i := 0; i < len(pairs); i++`, or the full counted loop over validators.Len() (pairs has exactly
+	// validators.Len() slots, decided above)
 	var fillStore assignment
 	nFill := 0
 	for _, a := range assignments(f) {
@@ -923,16 +1050,34 @@ func c20Median(c *core.Ctx) {
 		if ok && varOf(f, ix.X) == pairs {
 			nFill++
 			fillStore = a
-			fill, _ = enclosingLoop(f, a.Stmt.Pos()).(*ast.RangeStmt)
 		}
 	}
-	c.Need(nFill == 1 && fill != nil && varOf(f, fill.X) == pairs && fill.Key != nil, "pairs is filled by one store inside `for i := range pairs`")
-	obs := varOf(f, fill.Key)
-	fillDone, complete := loopDone(f, fill)
-	okAll := complete && c20EveryIteration(f, fill, fillStore.Pt) && varOf(f, ast.Unparen(fillStore.LHS).(*ast.IndexExpr).Index) == obs
-	if n, addr := c19AssignCount(f, obs); n != 1 || addr {
-		okAll = false
+	c.Need(nFill == 1, "pairs is filled by one indexed store")
+	fill := enclosingLoop(f, fillStore.Stmt.Pos())
+	c.Need(fill != nil && c19Within(region, fill.Pos()), "the store into pairs sits in a loop of its own inside the per-subject computation")
+	var obs *types.Var
+	okLoop := false
+	if it, ok := core.IterationOf(f, fill, func(e ast.Expr) ast.Expr {
+		if varOf(f, e) == pairs {
+			return ast.Unparen(e) // the slice variable itself, not the make() it was defined by
+		}
+		return c19Resolve(f, e, core.Point{})
+	}); ok && it.FromZero && it.Index != nil && it.Coll != nil && varOf(f, it.Coll) == pairs {
+		obs = it.Index
+		if fs, isFor := fill.(*ast.ForStmt); it.Counted && isFor {
+			okLoop = c19IsCounterOf(f, obs, fs)
+		} else if !it.Counted {
+			n, addr := c19AssignCount(f, obs)
+			okLoop = n == 1 && !addr
+		}
+	} else if fs, isFor := fill.(*ast.ForStmt); isFor {
+		if ctr, full := c20FullLoop(f, fs, func(e ast.Expr) bool { return c20IsValLen(f, e) }); full && ctr != nil {
+			obs, okLoop = ctr, okFresh
+		}
 	}
+	c.Need(obs != nil, "pairs is filled inside a loop over its slots (range pairs, i < len(pairs), or i < validators.Len())")
+	fillDone, complete := loopDone(f, fill)
+	okAll := okLoop && complete && c20EveryIteration(f, fill, fillStore.Pt) && c20VarAt(f, ast.Unparen(fillStore.LHS).(*ast.IndexExpr).Index) == obs
 	c.Check(okAll, "every observer contributes one entry", "T2 (loop)", fill.Pos(), "pairs[i] is stored for every i of range pairs (no break/continue)", "some observers are left out of the median (zero-weight nil entries or skipped slots)")
 	cl, _ := c19Resolve(f, fillStore.RHS, fillStore.Pt).(*ast.CompositeLit)
 	okSeq, okW := false, false
@@ -1028,57 +1173,94 @@ func c20Median(c *core.Ctx) {
 // ---------------------------------------------------------------------------
 // wmedian.Of
 
+// c20SliceIteration finds the one loop of f that visits the elements of the slice variable `vals` in
+// slice order from index 0, however it is written (range with key and/or value, or a counted loop
+// `for i := 0; i < len(vals); i++`), and returns it as a core.Iteration together with the predicate
+// "e denotes the element of the current iteration at point use" (the range value, vals[i], or a
+// single-definition local holding one of them, defined in the same iteration).
+func c20SliceIteration(c *core.Ctx, f *core.FuncInfo, vals *types.Var, what string) (*core.Iteration, func(e ast.Expr, use core.Point) bool) {
+	var it *core.Iteration
+	f.InspectOwn(func(n ast.Node) bool {
+		switch n.(type) {
+		case *ast.RangeStmt, *ast.ForStmt:
+		default:
+			return true
+		}
+		cand, ok := core.IterationOf(f, n.(ast.Stmt), func(e ast.Expr) ast.Expr {
+			if varOf(f, e) == vals {
+				return ast.Unparen(e) // the slice variable itself, not its defining expression
+			}
+			return c19Resolve(f, e, core.Point{})
+		})
+		if !ok || cand.Coll == nil || varOf(f, cand.Coll) != vals {
+			return true
+		}
+		c.Need(it == nil, "one loop over "+what)
+		it = cand
+		return true
+	})
+	c.Need(it != nil, what+" is visited by one loop in slice order (range, or for i := 0; i < len(..); i++)")
+	c.Need(it.FromZero && it.Head != nil, "the loop over "+what+" starts at the first element")
+	// the loop variables are changed only by the loop itself
+	if it.Counted {
+		fs, _ := it.Stmt.(*ast.ForStmt)
+		c.Need(fs != nil && c19IsCounterOf(f, it.Index, fs), "the index of the loop over "+what+" is counted from 0 by 1 and not modified otherwise")
+	} else {
+		for _, v := range []*types.Var{it.Index, it.Value} {
+			if v != nil {
+				n, addr := c19AssignCount(f, v)
+				c.Need(n == 1 && !addr, "range variables are not reassigned")
+			}
+		}
+	}
+	cur := func(e ast.Expr, use core.Point) bool {
+		return it.IsElem(e, func(x ast.Expr) ast.Expr { return c19Resolve(f, x, use) })
+	}
+	return it, cur
+}
+
 func c20WMedian(c *core.Ctx) {
 	f := c.Fn("utils/wmedian.Of")
 	pVals, pStop := f.Param(0), f.Param(1)
 	c.Need(pVals != nil && pStop != nil, "Of(values, stop) with named parameters")
-	var loop *ast.RangeStmt
-	f.InspectOwn(func(n ast.Node) bool {
-		if rs, ok := n.(*ast.RangeStmt); ok && varOf(f, rs.X) == pVals {
-			c.Need(loop == nil, "one range over values")
-			loop = rs
-		}
-		return true
-	})
-	c.Need(loop != nil, "Of ranges over its values parameter (slice order)")
-	head, _ := f.LoopOf(loop)
-	c.Need(head != nil, "loop head")
-	var val, key *types.Var
-	if loop.Value != nil {
-		val = varOf(f, loop.Value)
+	for _, v := range []*types.Var{pVals, pStop} {
+		n, addr := c19AssignCount(f, v)
+		c.Need(n == 0 && !addr, "parameters are not reassigned")
 	}
-	if loop.Key != nil {
-		key = varOf(f, loop.Key)
-	}
-	cur := func(e ast.Expr) bool { // the current element
-		e = ast.Unparen(e)
-		if v := varOf(f, e); v != nil && v == val {
-			return true
-		}
-		ix, ok := e.(*ast.IndexExpr)
-		return ok && key != nil && varOf(f, ix.X) == pVals && varOf(f, ix.Index) == key
-	}
-	for _, v := range []*types.Var{val, key, pVals, pStop} {
-		if v != nil {
-			n, addr := c19AssignCount(f, v)
-			want := 1
-			if v == pVals || v == pStop {
-				want = 0
-			}
-			c.Need(n == want && !addr, "range variables and parameters are not reassigned")
-		}
-	}
-	// accumulator
+	it, curAt := c20SliceIteration(c, f, pVals, "the values parameter")
+	loop, head := it.Stmt, it.Head
+	// accumulator: acc += cur.Weight() (or acc = acc + cur.Weight()), the weight possibly held in a local
 	var acc *types.Var
 	var adds []assignment
 	for _, a := range assignments(f) {
-		if a.Tok == token.ADD_ASSIGN && c19Within(loop, a.Stmt.Pos()) {
-			if w := isCallTo(f, a.RHS, "utils/wmedian.WeightedValue.Weight"); w != nil {
-				if sel, ok := ast.Unparen(w.Fun).(*ast.SelectorExpr); ok && cur(sel.X) {
-					c.Need(acc == nil || acc == varOf(f, a.LHS), "one accumulator")
-					acc = varOf(f, a.LHS)
-					adds = append(adds, a)
-				}
+		if !c19Within(loop, a.Stmt.Pos()) || a.RHS == nil {
+			continue
+		}
+		rhs := a.RHS
+		switch a.Tok {
+		case token.ADD_ASSIGN:
+		case token.ASSIGN:
+			// acc = acc + w  /  acc = w + acc
+			be, ok := ast.Unparen(rhs).(*ast.BinaryExpr)
+			if !ok || be.Op != token.ADD || varOf(f, a.LHS) == nil {
+				continue
+			}
+			switch varOf(f, a.LHS) {
+			case varOf(f, be.X):
+				rhs = be.Y
+			case varOf(f, be.Y):
+				rhs = be.X
+			default:
+				continue
+			}
+		default:
+			continue
+		}
+		if w := isCallTo(f, c19Resolve(f, rhs, a.Pt), "utils/wmedian.WeightedValue.Weight"); w != nil {
+			if sel, ok := ast.Unparen(w.Fun).(*ast.SelectorExpr); ok && curAt(sel.X, a.Pt) {
+				c.Need(acc == nil || acc == varOf(f, a.LHS), "one accumulator")
+				acc = varOf(f, a.LHS)
+				adds = append(adds, a)
 			}
 		}
 	}
@@ -1115,7 +1297,7 @@ func c20WMedian(c *core.Ctx) {
 	into := c19IntoHead(head)
 	for _, rp := range rets {
 		r := rp.Node().(*ast.ReturnStmt)
-		okV := len(r.Results) == 1 && cur(r.Results[0]) && c19Within(loop, r.Pos())
+		okV := len(r.Results) == 1 && curAt(r.Results[0], rp) && c19Within(loop, r.Pos())
 		c.Check(okV, "returns the current element", "provenance", r.Pos(), "the result is the element at which the threshold was reached", "Of returns something other than the element of the current iteration")
 		// within the iteration: add first, then the return only over cur >= stop
 		path, found := core.PathQuery{F: f, From: core.Point{B: head.Succs[0], I: 0}, Target: core.PointSet(rp), Avoid: core.PointSet(adds[0].Pt), AvoidEdge: into}.Find()
